@@ -21,10 +21,10 @@ FILES = ["NodeStateOps.tla", "FdOps.tla", "Gossip.tla", "Detector.tla", "MC_Dete
 
 FORMULAS = {
     "C10": {"inv": ["C10_TwoObservations"], "props": ["C10_Complete"]},
-    "C11": {"inv": ["C11_NeedsEvidence"], "props": ["C11_StaleIgnored"]},
+    "C11": {"inv": ["C11_NeedsEvidence"], "props": ["C11_StaleIgnored", "C11_SteadyObs"]},
 }
 TRACE_INV = ["C10_TwoObservations", "C11_NeedsEvidence", "C12_Sets"]
-TRACE_PROPS = ["C10_Complete", "C11_StaleIgnored", "C11_Steady", "C12_Partition", "C13_Publish"]
+TRACE_PROPS = ["C10_Complete", "C11_StaleIgnored", "C11_Steady", "C11_SteadyObs", "C12_Partition", "C13_Publish"]
 
 
 def consts(phi, window, maxi, prior, model):
@@ -82,7 +82,7 @@ def run(prop, tier, seed, replay=None):
         if tier == "thorough":
             c["MaxArrivals"] = 6
         cfgp = vlib.write_cfg(tmp(f"{name}.cfg"), "DSpec", c, invariants=TRACE_INV,
-                              properties=TRACE_PROPS, view="DView", constraint="DBounded",
+                              properties=[f for f in TRACE_PROPS if f != "C11_SteadyObs"], view="DView", constraint="DBounded",
                               action_constraint="DEmitEdge")
         m = vlib.cached_model_run(name, "MC_Detector.tla", cfgp, FILES[:5], workers=6, timeout=3000,
                                   heap="8g")
@@ -174,13 +174,26 @@ def run(prop, tier, seed, replay=None):
             samples.append([json.loads(x) for x in traces[0][1:4]])
         os.remove(tpath)
 
-    for gi, (lines, params, steps, note) in enumerate(divergent[:12]):
+    # judge every non-conforming history, grouped by detector parameters (one TLC run per group;
+    # a reported violation is then pinned to its history by single-history runs)
+    groups = {}
+    for d in divergent:
+        groups.setdefault(d[1], []).append(d)
+    for gi, (params, items) in enumerate(groups.items()):
         phi, w, mi, pr = params
         c = consts(phi, w, mi, pr, False)
-        for (_, f, at) in observe([lines], c, inv, props, f"{prop}_{gi}"):
-            res.violation({"kind": "detector-history", "hcfg": hcfg(phi, w, mi, pr), "phi": list(phi),
-                           "window": w, "maxi": mi, "prior": pr, "steps": steps, "formula": f},
-                          f"{f} fails on a real arrival history (event {at})")
+        if not observe_batch([it[0] for it in items], c, inv, props, f"{prop}_g{gi}"):
+            continue
+        found = 0
+        for (lines, _p, steps, note) in items:
+            v = observe([lines], c, inv, props, f"{prop}_{gi}")
+            for (_, f, at) in v:
+                res.violation({"kind": "detector-history", "hcfg": hcfg(phi, w, mi, pr), "phi": list(phi),
+                               "window": w, "maxi": mi, "prior": pr, "steps": steps, "formula": f},
+                              f"{f} fails on a real arrival history (event {at})")
+            found += len(v)
+            if found >= 3:
+                break
 
     res.coverage = {
         "states": states, "transitions": transitions, "traces_validated_against_impl": conform,
@@ -195,6 +208,24 @@ def run(prop, tier, seed, replay=None):
                        "(explicit in FdOps!AliveOutcomes)",
                        "C11_Steady reads the detector window and is therefore judged on conforming traces only"]
     return res.finish()
+
+
+def observe_batch(lines_list, c, inv, props, label):
+    """True iff some formula fails somewhere in the given histories (one TLC run)."""
+    cfg = vlib.write_cfg(tmp(f"odetb_{label}.cfg"), "ObsSpec", c, invariants=inv, properties=props,
+                         view="ObsView", post="ObsDone")
+    p = tmp(f"odetb_{label}.ndjson")
+    G.write_traces(p, lines_list)
+    env = {"TRACE": p, "JAVA_TOOL_OPTIONS": vlib.TRACE_JAVA_OPTS + " -Xmx4g"}
+    r, text = vlib.run_tlc("MC_ObserveDetector.tla", cfg, workers=1, timeout=3000, env=env)
+    os.remove(p)
+    if "Parsing or semantic analysis failed" in text:
+        raise vlib.ToolError("ObserveDetector failed to parse: " + text[-800:])
+    if re.search(r"(Invariant|Action property) (\w+) is violated", text):
+        return True
+    if "Error:" in text:
+        raise vlib.ToolError("ObserveDetector failed: " + text[-800:])
+    return False
 
 
 def observe(lines_list, c, inv, props, label):
